@@ -1442,8 +1442,14 @@ pub fn c20_process_part(ctx: &mut Ctx) -> Vec<Violation> {
         h.0[0] |= 0xa0;
         h
     });
-    let strat = (seed, any::<bool>(), 0u8..14, prop::sample::select(vec![1u8, 2])).prop_map(|(seed, via_env, variant, workers)| LeakRun { seed, via_env, variant, workers });
-    run_prop(ctx, "real-binary", t.pick(108, 1_440), 4, strat, |ctx, r| {
+    let strat = (seed, any::<bool>(), 0u8..28, prop::sample::select(vec![1u8, 2]), prop::bool::weighted(0.25)).prop_map(|(mut seed, via_env, variant, workers, digits)| {
+        if digits {
+            seed = Hex(super::secrets::digit_only(&seed.0));
+            seed.0[0] |= 0x10;
+        }
+        LeakRun { seed, via_env, variant, workers }
+    });
+    run_prop(ctx, "real-binary", t.pick(160, 1_920), 4, strat, |ctx, r| {
         ctx.sample("real-binary", 2, r);
         check_leak_run(ctx, r)
     })
